@@ -19,9 +19,13 @@ from .util import subseed, known_entry, load_known, VERIF
 FAMILIES = {
     "F-EARLY": ("C02", "C03", "C05", "C06", "C07", "C08", "C12", "C14"),
     "F-LOCK": ("C01", "C02", "C04", "C08"),
+    # not a finding: a group cancelling itself from inside its own argument iterator / factory call.  C07's
+    # quantifier excludes it (the spawner only notices at its next suspension), but slots must be conserved
+    # all the same - a small directed family with only the slot/accounting oracles of C01/C02 in force.
+    "OWN-ITER": ("C01", "C02"),
 }
-QUICK_N = {"F-EARLY": 300, "F-LOCK": 200}
-THOROUGH_N = {"F-EARLY": 1500, "F-LOCK": 800}
+QUICK_N = {"F-EARLY": 300, "F-LOCK": 200, "OWN-ITER": 150}
+THOROUGH_N = {"F-EARLY": 1500, "F-LOCK": 800, "OWN-ITER": 800}
 
 
 def units(prop, tier, seed):
@@ -106,7 +110,30 @@ def _lock_run(rng, prop):
     return {"clean": False, "config": {"hmask": 0, "pools": [pcfg]}, "steps": steps}
 
 
+def _own_iter_run(rng, prop):
+    size = rng.choice([1, 2, 3, 4])
+    kind = rng.choice(["map", "starmap", "apply"])
+    st = {"op": "spawn", "p": 0, "r": 1, "kind": kind, "fk": "sync", "sc": [{"g": 1}],
+          "ecb": rng.choice([None, "s"]), "ccb": rng.choice([None, "s"])}
+    if kind == "apply":
+        st["num"] = rng.choice([1, 2, 3, 5])
+    else:
+        st["elems"] = [0] * rng.choice([1, 2, 3, 5])
+        st["nc"] = rng.choice([1, 2, 3])
+    steps = []
+    if rng.random() < 0.4:
+        steps.append({"op": "spawn", "p": 0, "r": 2, "kind": "apply", "num": rng.choice([1, 2]), "sc": [{"g": 1}]})
+        steps.append({"op": "idle"})
+    point = "fa" if kind == "apply" else rng.choice(["it", "fa"])
+    steps.append({"op": rng.choice(["cancel_group", "cancel_group", "cancel_all"]), "p": 0, "r": 1, "at": [point, rng.choice([1, 1, 2, 3])]})
+    steps.append(st)
+    steps.append({"op": "idle"})
+    return {"clean": True, "own_iter_cancel": True, "config": {"hmask": 0, "pools": [{"cls": "T", "size": size}]}, "steps": steps}
+
+
 def _triggered(tag, sim):
+    if tag == "OWN-ITER":
+        return bool(sim.stats.get("reentrant:it") or sim.stats.get("reentrant:fa"))
     if tag == "F-EARLY":
         return any(t.early for pc in sim.pools for t in pc.tasks)
     if tag == "F-LOCK":
@@ -126,7 +153,7 @@ def exec_unit(prop, arg, agg, order):
         agg.stats["witness_replayed"] += 1
     else:
         rng = random.Random(seed)
-        run = _early_run(rng, prop) if tag == "F-EARLY" else _lock_run(rng, prop)
+        run = _early_run(rng, prop) if tag == "F-EARLY" else (_own_iter_run(rng, prop) if tag == "OWN-ITER" else _lock_run(rng, prop))
         run["prop"] = prop
         run["seed"] = seed
         run["hazard"] = tag
